@@ -7,6 +7,8 @@ From RG.Base Require Import Outcome GoInt GoSlice.
 From RG.Regex Require Import Utf8 Regex Capture.
 From RG.Engine Require Import TruncateSpec RenderSpec RenderLoop CommentSpec CommentLoop CommentLoad CommentHandler.
 From RGW Require Import Gen_C03 Inst_Render Gen_C12 Inst_Comment Gen_C12Loop Gen_C12Handler Def_CommentHandler Inst_CommentHandler Def_CommentLoop Inst_CommentLoop Gen_C12Load Def_CommentLoad Inst_CommentLoad.
+From RG.Engine Require Import FileBytes.
+From RGW Require Import Gen_C03Src Inst_FileBytes.
 Import ListNotations.
 Local Open Scope Z_scope.
 
@@ -287,3 +289,38 @@ Example c12_stale_match_data_differs :
     = Ok (Some {| rep_pos := 4; rep_end := 5; rep_msg := [98]; rep_sugg := None; rep_line := 2 |}) /\
   run_loop nodeTextInRange (fun _ _ => None) 0 src 0 src false md_zero rules = Ok None.
 Proof. split; vm_compute; reflexivity. Qed.
+
+(* ---- the bytes the texts are sliced from: rulesRunner.fileBytes, translated from runner.go on this run, is the specification
+   (the slice this run already holds, else the file as it is on disk NOW), for every disk, file name and state of rr.src *)
+Theorem C12_translated_fileBytes_is_spec :
+  forall (d : disk) (name : bytes) (w : fworld), gen_fileBytes d name w = file_bytes d name w.
+Proof. exact gen_fileBytes_is_file_bytes. Qed.
+Print Assumptions C12_translated_fileBytes_is_spec.
+
+(* for every HISTORY of runs through one reused RunnerState -- any disks (the file may have been rewritten between two runs:
+   other bytes of the same length at the same path included), any file names, any number of nodeText calls per run, any
+   state the runner object was left in -- every nodeText of every run slices the bytes its file has on disk during that
+   run.  The reset flag is read off newRulesRunner on this run. *)
+Theorem C12_every_run_slices_the_file_of_its_time :
+  forall (runs : list frun) (w : fworld), history gen_fileBytes gen_c03_runner_reset w runs = map expected_of runs.
+Proof. exact gen_history_reads_current_disk. Qed.
+Print Assumptions C12_every_run_slices_the_file_of_its_time.
+
+Theorem C12_file_bytes_facts : forallb snd gen_c03_src_facts = true /\ (3 <= List.length gen_c03_src_facts)%nat.
+Proof. exact (conj c03_src_facts_hold c03_src_facts_count). Qed.
+Print Assumptions C12_file_bytes_facts.
+
+(* a cache of an earlier run's bytes is invisible exactly when what it is keyed by determines the bytes ... *)
+Theorem C12_cache_sound_when_key_determines_bytes :
+  forall (K : Type) (key : disk -> bytes -> K) (key_eqb : K -> K -> bool), key_determines key key_eqb ->
+  forall runs cache, cache_ok key key_eqb cache ->
+  cached_history key key_eqb cache runs = map (fun r => disk_bytes (fst r) (snd r)) runs.
+Proof. exact (@cached_history_sound). Qed.
+Print Assumptions C12_cache_sound_when_key_determines_bytes.
+
+(* ... and (file name, byte length) does not; neither does carrying rr.src from one run to the next *)
+Example c12_name_and_length_do_not_determine_the_bytes :
+  cached_history name_len_key name_len_eqb None [(disk_v1, [102]); (disk_v2, [102])] = [[97; 109; 121]; [97; 109; 121]]
+  /\ history file_bytes false fresh_runner [(disk_v1, [102], 1%nat); (disk_v2, [102], 1%nat)] = [[Some [97; 109; 121]]; [Some [97; 109; 121]]]
+  /\ history gen_fileBytes gen_c03_runner_reset fresh_runner [(disk_v1, [102], 1%nat); (disk_v2, [102], 1%nat)] = [[Some [97; 109; 121]]; [Some [101; 118; 101]]].
+Proof. repeat split; vm_compute; reflexivity. Qed.
